@@ -511,6 +511,16 @@ void do_printf_floats(S &sink, char t, format_options opts,
 	case 'G':
 	case 'e':
 	case 'E':
+		// These conversions are not implemented (a placeholder is printed), but the directive
+		// still consumes its argument: the directives after it must see their own.
+#ifndef FRG_DONT_USE_LONG_DOUBLE
+		if (szmod == printf_size_mod::longdouble_size) {
+			(void)pop_arg<long double>(vsp, &opts);
+			sink.append("%f");
+			break;
+		}
+#endif
+		(void)pop_arg<double>(vsp, &opts);
 		sink.append("%f");
 		break;
 	default:
